@@ -75,6 +75,8 @@ def _harness(ctx, tag, scripts, builtin):
         write_scripts(inp, scripts)
         env["VERIF_IN"] = inp
     if builtin:
+        if "@" in builtin:
+            builtin, env["VERIF_VSV_BACKENDS"] = builtin.split("@")
         env["VERIF_VSV_BUILTIN"] = builtin
     else:
         env["VERIF_NOBUILTIN"] = "1"
@@ -159,7 +161,11 @@ def run(ctx, monitors):
     for i in range(k):
         jobs.append((i + 1, scripts[i::k], None))
     builtin = ",".join((["soak"] if c11 else []) + (["stall", "scanstall"] if c12 else []))
-    jobs.append((0, None, builtin))
+    if q:
+        jobs.append((0, None, builtin))
+    else:
+        for j, be in enumerate(("bolt", "boltu", "mem")):
+            jobs.append((10 + j, None, builtin + "@" + be))
     return _judge(ctx, monitors, scripts, jobs)
 
 
